@@ -21,6 +21,22 @@ def run(ctx):
     for c in ui:
         if not c["witness"].get("has_stderr") or not c["witness"]["markers"]:
             ctx.violation("C18.repo-ui-expectation", [c["name"]], c["origin"], "a committed .stderr with at least one located error", c["witness"]["markers"], "expectation missing")
+    # adequacy of the witness set: which error diagnostics of the generator does some must-fail witness trigger?
+    from .. import adequacy
+    from .. import facts as F
+    observed = []
+    for c in fx.crates:
+        if c.get("expect_fail"):
+            observed += [e["message"] for e in F.target_errors(fx, c)]
+    cov = adequacy.diagnostic_coverage(observed)
+    ctx.inst("ADEQ.diagnostic-sites", cov["sites"])
+    ctx.extra["generator_diagnostic_sites"] = {"sites": cov["sites"], "triggered_by_a_witness": cov["covered"],
+                                               "explained": [f"{e['file']}:{e['line']} {e['message'][:60]}: {e['reason']}" for e in cov["allowlisted"]],
+                                               "not_triggered": [f"{e['file']}:{e['line']} {e['fn']}: {e['message'][:80]}" for e in cov["uncovered"]]}
+    for e in cov["uncovered"]:
+        ctx.violation("ADEQ.diagnostic-sites", [e["file"], e["fn"], e["message"][:50]], f"{e['file']}:{e['line']} fn {e['fn']}",
+                      "every error diagnostic the generator can emit is triggered by at least one must-fail witness", f"no witness triggers `{e['message'][:100]}`",
+                      "adequacy of the fault enumeration: a validation nobody exercises can be deleted unnoticed")
     ctx.floor("C18.w-repo-ui", 17)
     ctx.floor("C18.w-w-invalid", 30)
     if ctx.tier == "thorough":
